@@ -55,6 +55,12 @@ def _is_constant_expr(prog: Program, mod: Module, e: ast.AST) -> bool:
         return all(_is_constant_expr(prog, mod, x) for x in e.elts)
     if isinstance(e, ast.Call) and isinstance(e.func, ast.Name) and e.func.id == "object" and not e.args and not e.keywords:
         return True      # a sentinel: no state, compared by identity only
+    if isinstance(e, ast.Call) and isinstance(e.func, ast.Name):
+        # an instance of a NamedTuple class of this package built from constants: an immutable record
+        ci_ = prog.resolve_symbol(mod, e.func.id)
+        if isinstance(ci_, ClassInfo) and any(b in ("NamedTuple", "typing.NamedTuple") for b in ci_.ext_bases) and not ci_.bases \
+                and not any(isinstance(a_, ast.Starred) for a_ in e.args) and all(k_.arg is not None for k_ in e.keywords):
+            return all(_is_constant_expr(prog, mod, a_) for a_ in list(e.args) + [k_.value for k_ in e.keywords])
     if isinstance(e, ast.Subscript) and isinstance(e.value, (ast.Name, ast.Attribute)):
         # a type alias: Tuple[float, float], Optional[np.ndarray], typing.Callable[..]
         root = e.value.id if isinstance(e.value, ast.Name) else (dotted(e.value) or "").split(".")[0]
